@@ -267,6 +267,11 @@ func initTopicP2P(t *Topic, sreg *ClientComMessage) error {
 		}
 		t.lastID = stopic.SeqId
 		t.delID = stopic.DelId
+
+		// The topic of a suspended account is read-only, in memory as in the database.
+		if stopic.State == types.StateSuspended {
+			t.markReadOnly(true)
+		}
 	}
 
 	// t.owner is blank for p2p topics
@@ -686,6 +691,11 @@ func initTopicGrp(t *Topic) error {
 	}
 	t.lastID = stopic.SeqId
 	t.delID = stopic.DelId
+
+	// The topic of a suspended owner is read-only, in memory as in the database.
+	if stopic.State == types.StateSuspended {
+		t.markReadOnly(true)
+	}
 
 	// Initialize channel for receiving session online updates.
 	t.supd = make(chan *sessionUpdate, 32)
